@@ -50,6 +50,8 @@ pub enum TOp {
     Loop { u: usize, dir: u8, spec: Option<crate::model::SearchSpec>, plan: Vec<(usize, Op)> },
     /// replace the container by `Graph::default()` / `with_capacity` holding the same members
     Recreate { capacity: Option<usize> },
+    /// graphs built by the construction macros of the flavour
+    MacroBuild,
 }
 
 #[derive(Clone, Debug, Serialize, Deserialize)]
@@ -225,6 +227,7 @@ fn exec<F: Flavour>(w: &mut World<F>, op: &TOp) -> Obs {
             Some(a) => Obs::Edges(vec![F::edge_reverse(&a)]),
             None => Obs::Unit,
         },
+        TOp::MacroBuild => Obs::Text(F::macro_samples().join(" || ")),
         TOp::PathInfo { root, spec } => match F::path_info(&w.nodes[*root], spec) {
             Some(t) => Obs::Text(t),
             None => Obs::Unit,
@@ -387,6 +390,7 @@ impl Engine for Twin {
                 89..=91 => TOp::RoundTrip { wire },
                 92..=93 => TOp::EdgeEq { u: rng.below(n), i: rng.below(3), v: rng.below(n), j: rng.below(3) },
                 94..=95 => TOp::EdgeCmp { u: rng.below(n), i: rng.below(3), v: rng.below(n), j: rng.below(3) },
+                96 if rng.chance(1, 20) => TOp::MacroBuild,
                 96 => {
                     if rng.coin() {
                         TOp::EdgeReverse { u: rng.below(n), i: rng.below(3) }
